@@ -89,9 +89,11 @@ def run(ctx):
             ctx.fail("history", c, "stored-range read-outs inconsistent: " + sc)
             continue
         if c["e"][0] == "trunc":
+            # the stored range of a truncation must be the model's (for a non-zero operand and a parity-consistent
+            # window the model's range is [a, b]: theorem C09_truncate_window)
             a, b = c["e"][2], c["e"][3]
-            if not (ro["dmin"] == a and len(ro["coefs"]) == (b - a) // 2 + 1):
-                ctx.fail("history", c, f"truncate to [{a},{b}] returned stored range dmin={ro['dmin']} len={len(ro['coefs'])}")
+            if not (str(ro["dmin"]) == m[0] and len(ro["coefs"]) == len(m[2])):
+                ctx.fail("history", c, f"truncate to [{a},{b}] returned stored range dmin={ro['dmin']} len={len(ro['coefs'])}, the exact model has dmin={m[0]} len={len(m[2])}")
                 continue
         # coefficient look-up and 2-norm
         gets = [Fraction(x) for x in minfo[4]]
